@@ -244,9 +244,10 @@ theorem upconverted_reports_v3_validates_and_saves (i : Input) (o : Output) (h :
 /-- **the four robofab keys are gone from the lib of a converted format-1 font, every other key stays** -/
 theorem robofab_removed_from_lib (i : Input) (o : Output) (h1 : i.fmt = 1) (hl : i.hasLib = true)
     (h : load i = .ok o) :
-    (∀ k ∈ o.libKeys, k ∉ Spec.robofabKeys) ∧ (∀ k ∈ i.libKeys, k ∉ Spec.robofabKeys → k ∈ o.libKeys) := by
+    (∀ k ∈ o.libKeys, k ∉ Spec.robofabKeys) ∧
+    (i.reqLib = true → ∀ k ∈ i.libKeys, k ∉ Spec.robofabKeys → k ∈ o.libKeys) := by
   have hk : Gen.robofabRemoved = Spec.robofabKeys := by decide +kernel
-  have hlib : o.libKeys = i.libKeys.filter (fun k => !Spec.robofabKeys.contains k) := by
+  have hlib : o.libKeys = (if i.reqLib then i.libKeys else []).filter (fun k => !Spec.robofabKeys.contains k) := by
     unfold load at h
     cases hf : fromFile i.fmt i.attrs with
     | error e => simp [hf] at h
@@ -270,8 +271,8 @@ theorem robofab_removed_from_lib (i : Input) (o : Output) (h1 : i.fmt = 1) (hl :
     simp only [List.mem_filter, Bool.not_eq_eq_eq_not, Bool.not_true, List.contains_eq_mem,
       decide_eq_false_iff_not] at hk'
     exact hk'.2
-  · intro k hk1 hk2
-    simp only [List.mem_filter, Bool.not_eq_eq_eq_not, Bool.not_true, List.contains_eq_mem,
+  · intro hq k hk1 hk2
+    simp only [hq, if_true, List.mem_filter, Bool.not_eq_eq_eq_not, Bool.not_true, List.contains_eq_mem,
       decide_eq_false_iff_not]
     exact ⟨hk1, hk2⟩
 
@@ -314,6 +315,39 @@ theorem hint_data_moved (i : Input) (o : Output) (h : List (String × Val)) (h1 
   unfold applyHints
   rw [hacc]
   exact ⟨fun v hv => hintStep_some _ _ _ _ hv, fun hn hc => hintStep_none _ _ _ hn hc⟩
+
+def converted (o : Output) : List (String × Val) × Nat := (o.info, o.formatVersion)
+
+/-- **the data request does not change the conversion**: whichever files the caller asked for, a format-1 or
+    format-2 font yields the same font info (hint data included) and reports the same format; with the lib
+    switch alone also the same feature text -/
+theorem conversion_independent_of_request (i : Input) (l f : Bool) :
+    (load { i with reqLib := l, reqFeatures := f }).toOption.map converted = (load i).toOption.map converted ∧
+    (load { i with reqLib := l }).toOption.map (·.features) = (load i).toOption.map (·.features) := by
+  unfold load
+  constructor
+  · cases hf : fromFile i.fmt i.attrs with
+    | error e => rfl
+    | ok info =>
+      simp only
+      split
+      · cases i.robofab.hint with
+        | none => rfl
+        | some h =>
+          simp only
+          cases validated (applyHints Gen.hintRows h info) <;> rfl
+      · rfl
+  · cases hf : fromFile i.fmt i.attrs with
+    | error e => rfl
+    | ok info =>
+      simp only
+      split
+      · cases i.robofab.hint with
+        | none => rfl
+        | some h =>
+          simp only
+          cases validated (applyHints Gen.hintRows h info) <;> rfl
+      · rfl
 
 /-! ### non-vacuity -/
 
